@@ -32,6 +32,7 @@ def _add_done(it, args, kwargs, node, anchor):
 @extern("Future.result", "waits; raises the task's own exception, TimeoutError or CancelledError")
 def _future_result(it, args, kwargs, node, anchor):
     it.st.log.append(LogEntry("Future.result", list(args), kwargs, None, anchor))
+    it.st.log[-1].pre = it.st.snapshot()
     if it.ctx.branch(z3.Bool("future_result_raises!%d" % len(it.st.log)), "result raises"):
         it.raise_symbolic(anchor, "Exception", "task-failed-or-timeout")
     return it.ctx.fresh("task_result", Val)
@@ -92,7 +93,13 @@ c.ens("closed-afterwards", lambda S_: S_.f(S_.a.self, "_open") == VFalse)
 def _flush_body(L):
     """every task that is still pending is waited for (once)"""
     rs = [e for e in L.iter_log() if e.label == "Future.result"]
-    return [("waited-at-most-once-per-task", z3.BoolVal(len(rs) <= 1))]
+    from pyvc.contract import Heap
+    me = L.local("self")
+    # "work submitted after closing is refused": the handler is closed BEFORE it starts waiting, so nothing can be
+    # accepted while (or after) the pending tasks are drained
+    closed = [Heap(None, e.pre).f(me, "_open") == VFalse for e in rs]
+    return [("waited-at-most-once-per-task", z3.BoolVal(len(rs) <= 1)),
+            ("closed-before-waiting", And(*closed) if closed else z3.BoolVal(True))]
 
 
 c.loop("iter:dict(self._pending).keys()", body_ensures=_flush_body, body_no_raise=True, modifies=lambda L: [("all",)])
@@ -145,21 +152,19 @@ def _stub_send(it, args, kwargs, node, anchor):
     return VRef(it.st.alloc(it.table.id("proto")))
 
 
-c = contract("push/__init__.py", "convert_snapshot", [])
+c = contract("push/__init__.py", "convert_snapshot", [], coarse=True)
 c.param("snapshot", VAL)
 c.result = P("val")
 c.logged = "convert_snapshot"
 c.modifies = lambda S_: []
 c.ens("proto-or-none", lambda S_: Or(Val.is_VNone(S_.result), And(Val.is_VRef(S_.result), S_.new.typeof(S_.result) == S_.cid("proto"))))
-c.coarse = True
 
-c = contract("grpc/grpc_service.py", "GRPCService.metadata", [])
+c = contract("grpc/grpc_service.py", "GRPCService.metadata", [], coarse=True)
 c.param("self", VAL)
 c.result = P("val")
 c.logged = "grpc.metadata"
 c.modifies = lambda S_: [("all",)]
 c.sig("Exception", "auth-provider-failed")
-c.coarse = True
 
 c = contract(PS, "PushService._push_task", ["C09", "C08"])
 c.param("self", OBJ("PushService", inv=False)).param("snapshot", OBJ("EventSnapshot"))
